@@ -39,6 +39,9 @@ fn jobs(plan: &Plan) -> Vec<Job> {
     let mut v = entry_jobs(plan, "C17", "presized", t.pick(120, 4000, 1), |d| d.flags.structural);
     v.extend(stack_jobs(plan, "C17", "stack-presized", t.pick(30, 600, 0), |d| d.flags.structural));
     v.extend(entry_jobs(plan, "C17", "growth", t.pick(2, 12, 0), |d| !d.flags.coded && plain(d) && d.flags.heap));
+    for h in 0..t.pick(96, 960, 0) {
+        v.push(standalone("fixed-width-forms", "presized-arrays", h, fixed_width));
+    }
     v
 }
 
@@ -64,6 +67,9 @@ fn required(plan: &Plan) -> Vec<String> {
     }
     v.push("growth:n=16384".into());
     v.push("presized:populated".into());
+    for c in FIXED_WIDTH_CASES {
+        v.push(format!("presized-arrays:{c}"));
+    }
     v
 }
 
@@ -354,5 +360,196 @@ fn alloc_probe(ctx: &mut Ctx) {
     let d = alloc::since(snap);
     println!("ALLOC-PROBE window_calls={} process_calls={}", d.calls(), alloc::process_calls());
     ctx.nontrivial = true;
+    ctx.end_history();
+}
+
+// ---------------------------------------------------------------- array / `&&str` forms of ReserveItems
+
+/// The announced-item forms that need items of one fixed width and are therefore not among the
+/// catalogue's reserve forms: `&[T; N]` into owned-slice and slice regions (directly and
+/// reached through `&Vec<[T; N]>`, `&Option<[T; N]>`, FlatStack), `&&str` into string regions.
+const FIXED_WIDTH_CASES: [&str; 8] = [
+    "owned<u8>:&[T;N]",
+    "owned<u64>:&[T;N]",
+    "slice<mirror<u8>>:&[T;N]",
+    "slice<string>:&[String;N]",
+    "slice<owned<u8>>:&Vec<[T;N]>",
+    "option<owned<u8>>:&Option<[T;N]>",
+    "stack<owned<u8>>:&[T;N]",
+    "string:&&str",
+];
+
+fn fixed_judge(ctx: &mut Ctx, case: &str, n: usize, width: usize, d: alloc::Snap, before: Vec<(usize, usize)>, after: Vec<(usize, usize)>) {
+    let caps_b: Vec<usize> = before.iter().map(|p| p.1).collect();
+    let caps_a: Vec<usize> = after.iter().map(|p| p.1).collect();
+    if caps_b != caps_a {
+        ctx.fail(
+            &format!("capacity-changed:reserve_items:{case}"),
+            format!("{case}: after reserve_items over {n} items of width {width}, pushing exactly those items changed the capacities reported by heap_size from {caps_b:?} to {caps_a:?}"),
+        );
+    } else if d.calls() != 0 {
+        ctx.fail(
+            &format!("allocated:reserve_items:{case}"),
+            format!("{case}: after reserve_items over {n} items of width {width}, pushing exactly those items called the allocator {} times", d.calls()),
+        );
+    }
+    ctx.cover(&format!("presized-arrays:{case}"));
+    ctx.nontrivial = n >= 2;
+}
+
+fn fixed_width(ctx: &mut Ctx) {
+    use flatcontainer::impls::slice_owned::OwnedRegion;
+    use flatcontainer::{FlatStack, MirrorRegion, OptionRegion, Push, ReserveItems, SliceRegion, StringRegion};
+    let h = ctx.hist_no as usize;
+    let n = [1usize, 2, 7, 40, 300, 2500][h % 6];
+    // a populated region every other time: the reservation comes on top of what is stored
+    let prefill = (h / 6) % 2 == 1;
+    macro_rules! widths {
+        ($w:expr, $body:ident) => {
+            match $w {
+                0 => $body!(2),
+                1 => $body!(3),
+                2 => $body!(8),
+                _ => $body!(33),
+            }
+        };
+    }
+    let heap = |f: &dyn Fn(&mut dyn FnMut(usize, usize))| {
+        let mut v = Vec::new();
+        f(&mut |u, c| v.push((u, c)));
+        v
+    };
+    let case = FIXED_WIDTH_CASES[(h / 12) % FIXED_WIDTH_CASES.len()];
+    let w = (h / 3) % 4;
+    ctx.log(format!("{case}: {n} items, width class {w}, prefilled: {prefill}"));
+    macro_rules! run_case {
+        ($region:expr, $items:expr, $width:expr, |$r:ident, $it:ident| $reserve:expr, |$r2:ident, $x:ident| $push:expr, $pre:expr) => {{
+            let mut $r = $region;
+            let items = $items;
+            if prefill {
+                let $r2 = &mut $r;
+                for $x in items.iter().take(3) {
+                    let _ = $push;
+                }
+                let _ = $pre;
+            }
+            let res = panics::catch(|| {
+                {
+                    let $it = &items;
+                    $reserve;
+                }
+                let before = heap(&|cb| $r.heap_size(cb));
+                let snap = alloc::snap();
+                {
+                    let $r2 = &mut $r;
+                    for $x in items.iter() {
+                        let _ = $push;
+                    }
+                }
+                let d = alloc::since(snap);
+                let after = heap(&|cb| $r.heap_size(cb));
+                (d, before, after)
+            });
+            match res {
+                Ok((d, before, after)) => fixed_judge(ctx, case, items.len(), $width, d, before, after),
+                Err(p) => ctx.fail_panic("presized-arrays", &p),
+            }
+        }};
+    }
+    match case {
+        "owned<u8>:&[T;N]" => {
+            macro_rules! body {
+                ($N:literal) => {
+                    run_case!(OwnedRegion::<u8>::default(), (0..n).map(|k| [k as u8; $N]).collect::<Vec<[u8; $N]>>(), $N, |r, it| r.reserve_items(it.iter()), |r, x| r.push(x), ())
+                };
+            }
+            widths!(w, body)
+        }
+        "owned<u64>:&[T;N]" => {
+            macro_rules! body {
+                ($N:literal) => {
+                    run_case!(OwnedRegion::<u64>::default(), (0..n).map(|k| [k as u64; $N]).collect::<Vec<[u64; $N]>>(), $N, |r, it| r.reserve_items(it.iter()), |r, x| r.push(x), ())
+                };
+            }
+            widths!(w, body)
+        }
+        "slice<mirror<u8>>:&[T;N]" => {
+            macro_rules! body {
+                ($N:literal) => {
+                    run_case!(SliceRegion::<MirrorRegion<u8>>::default(), (0..n).map(|k| [k as u8; $N]).collect::<Vec<[u8; $N]>>(), $N, |r, it| r.reserve_items(it.iter()), |r, x| r.push(x), ())
+                };
+            }
+            widths!(w, body)
+        }
+        "slice<string>:&[String;N]" => {
+            macro_rules! body {
+                ($N:literal) => {
+                    run_case!(
+                        SliceRegion::<StringRegion>::default(),
+                        (0..n).map(|k| std::array::from_fn::<String, $N, _>(|j| "x".repeat((k + j) % 5))).collect::<Vec<[String; $N]>>(),
+                        $N,
+                        |r, it| r.reserve_items(it.iter()),
+                        |r, x| r.push(x),
+                        ()
+                    )
+                };
+            }
+            widths!(w, body)
+        }
+        "slice<owned<u8>>:&Vec<[T;N]>" => {
+            macro_rules! body {
+                ($N:literal) => {
+                    run_case!(
+                        SliceRegion::<OwnedRegion<u8>>::default(),
+                        (0..n).map(|k| vec![[k as u8; $N]; k % 4]).collect::<Vec<Vec<[u8; $N]>>>(),
+                        $N,
+                        |r, it| r.reserve_items(it.iter()),
+                        |r, x| r.push(x),
+                        ()
+                    )
+                };
+            }
+            widths!(w, body)
+        }
+        "option<owned<u8>>:&Option<[T;N]>" => {
+            macro_rules! body {
+                ($N:literal) => {
+                    run_case!(
+                        OptionRegion::<OwnedRegion<u8>>::default(),
+                        (0..n).map(|k| if k % 5 == 4 { None } else { Some([k as u8; $N]) }).collect::<Vec<Option<[u8; $N]>>>(),
+                        $N,
+                        |r, it| r.reserve_items(it.iter()),
+                        |r, x| r.push(x),
+                        ()
+                    )
+                };
+            }
+            widths!(w, body)
+        }
+        "stack<owned<u8>>:&[T;N]" => {
+            macro_rules! body {
+                ($N:literal) => {
+                    run_case!(
+                        {
+                            let mut fs = FlatStack::<OwnedRegion<u8>>::default();
+                            fs.reserve(n + 3);
+                            fs
+                        },
+                        (0..n).map(|k| [k as u8; $N]).collect::<Vec<[u8; $N]>>(),
+                        $N,
+                        |r, it| r.reserve_items(it.iter()),
+                        |r, x| r.copy(x),
+                        r.reserve(n)
+                    )
+                };
+            }
+            widths!(w, body)
+        }
+        _ => {
+            let owned: Vec<String> = (0..n).map(|k| "é".repeat(1 + (k * 7 + w) % 9)).collect();
+            let strs: Vec<&str> = owned.iter().map(|s| s.as_str()).collect();
+            run_case!(StringRegion::default(), strs, 0, |r, it| r.reserve_items(it.iter()), |r, x| <StringRegion as Push<&&str>>::push(r, x), ())
+        }
+    }
     ctx.end_history();
 }
